@@ -104,6 +104,37 @@ def desugarList (env : KeyEnv) (rp : Key → Nat) : MsList → MsList
   | .cons x xs => .cons (desugar env rp x) (desugarList env rp xs)
 end
 
+mutual
+/-- rename the keys (used for `ToPublicKey::to_x_only_pubkey` on a Taproot miniscript over
+full keys: the encoder pushes the x-only form of every key) -/
+def reKey (f : Key → Key) : Ms → Ms
+  | .pkK k => .pkK (f k)
+  | .pkH k => .pkH (f k)
+  | .multi k ks => .multi k (ks.map f)
+  | .sortedMulti k ks => .sortedMulti k (ks.map f)
+  | .multiA k ks => .multiA k (ks.map f)
+  | .sortedMultiA k ks => .sortedMultiA k (ks.map f)
+  | .alt x => .alt (reKey f x)
+  | .swap x => .swap (reKey f x)
+  | .check x => .check (reKey f x)
+  | .dupIf x => .dupIf (reKey f x)
+  | .verify x => .verify (reKey f x)
+  | .nonZero x => .nonZero (reKey f x)
+  | .zeroNotEqual x => .zeroNotEqual (reKey f x)
+  | .andV l r => .andV (reKey f l) (reKey f r)
+  | .andB l r => .andB (reKey f l) (reKey f r)
+  | .orB l r => .orB (reKey f l) (reKey f r)
+  | .orD l r => .orD (reKey f l) (reKey f r)
+  | .orC l r => .orC (reKey f l) (reKey f r)
+  | .orI l r => .orI (reKey f l) (reKey f r)
+  | .andOr a b c => .andOr (reKey f a) (reKey f b) (reKey f c)
+  | .thresh k xs => .thresh k (reKeyList f xs)
+  | m => m
+def reKeyList (f : Key → Key) : MsList → MsList
+  | .nil => .nil
+  | .cons x xs => .cons (reKey f x) (reKeyList f xs)
+end
+
 /-- left-nested `and_v` chain `and_v(…and_v(and_v(p₁,p₂),p₃)…,last)` -/
 def mkAndV : List Ms → Ms → Ms
   | [], last => last
